@@ -57,7 +57,7 @@ def run(ctx):
     S = ctx.seed
     if thorough:
         seq = [('asan', 12, 20000), ('rel', 12, 80000)]
-        nconc = {'asan': 6000, 'rel': 20000}
+        nconc = {'asan': 2500, 'rel': 6000}
     else:
         seq = [('asan', 4, 1500), ('rel', 4, 5000)]
         nconc = {'asan': 100, 'rel': 250}
@@ -76,7 +76,7 @@ def run(ctx):
         cmd = [exe[j['fl']]] + [str(a) for a in j['args']]
         return j, ctx.run(cmd, timeout=10800 if thorough else 900, stall_s=120, tag='%s-%s-%d' % (j['kind'], j['fl'], id(j)))
 
-    res = ctx.pmap(one, [j for j in jobs if j['kind'] == 'seq'], jobs=8) + ctx.pmap(one, [j for j in jobs if j['kind'] == 'conc'], jobs=3)
+    res = ctx.pmap(one, [j for j in jobs if j['kind'] == 'seq'], jobs=8) + ctx.pmap(one, [j for j in jobs if j['kind'] == 'conc'], jobs=4 if thorough else 3)
     for j, r in res:
         what = '%s %s' % (j['fl'], ' '.join(str(a) for a in j['args']))
         hist = r.of('history')
